@@ -5,6 +5,7 @@ package harness
 import (
 	"fmt"
 	"os"
+	"regexp"
 	"strconv"
 	"strings"
 	"testing"
@@ -371,7 +372,7 @@ func TestC15(t *testing.T) {
 		// a partial bid on the first auction
 		if as := w.app.AuctionKeeper.GetDutchAuctions(w.ctx, 1); len(as) > 0 {
 			w.fund(w.addr[10], "ucmst", 100000000)
-			err := w.deliver(auctiontypes.NewMsgPlaceDutchBid(w.addr[10].String(), as[0].AuctionId, sdk.NewCoin("ucmdx", sdk.NewInt(200000)), 1, as[0].AuctionMappingId))
+			err := w.deliver(auctiontypes.NewMsgPlaceDutchBid(w.addr[10].String(), as[0].AuctionId, sdk.NewCoin("ucmdx", sdk.NewInt(2000000)), 1, as[0].AuctionMappingId))
 			if err == nil {
 				tr.Count("fixture:v1.bid")
 			} else {
@@ -460,13 +461,38 @@ func TestC15(t *testing.T) {
 		w.advance(600, 100)
 		w.campaign("v2.auctions-later", w.ctx, blockers, ks)
 		w.apply("auctionsV2.BeginBlocker")
-		w.advance(3601, 500)
+		w.advance(1800, 300) // 3000 s into the 3600 s window: the auction price is below the oracle price, limit bids match
+		w.campaign("v2.auctions-discounted", w.ctx, blockers, ks)
+		w.apply("auctionsV2.BeginBlocker")
+		w.advance(700, 100)
 		w.campaign("v2.auctions-expired", w.ctx, blockers, ks)
 		for _, e := range c15Envs() {
 			st, _ := w.ctx.CacheContext()
 			e.prep(w, st)
 			w.envRun("v2.auctions-expired+"+e.name, st, "1")
 		}
+		panics = append(panics, w.panics...)
+	}
+
+	// ---- first-generation liquidation of lend positions: lend Dutch auctions of x/auction ---------------------
+	{
+		w := c15NewWorld(t, tr, 12)
+		w.setupV2(0, nV)
+		w.advance(6, 1)
+		w.setPrice(2, 1000000, true)
+		w.setPrice(1, 900000, true)
+		w.campaign("l1.liquidatable", w.ctx, blockers, ks)
+		w.apply("liquidation.BeginBlocker")
+		w.advance(600, 100)
+		w.campaign("l1.auctions-open", w.ctx, blockers, ks)
+		for _, e := range c15Envs() {
+			st, _ := w.ctx.CacheContext()
+			e.prep(w, st)
+			w.envRun("l1.auctions-open+"+e.name, st, "1")
+		}
+		w.apply("auction.BeginBlocker")
+		w.advance(21700, 3000)
+		w.campaign("l1.auctions-expired", w.ctx, blockers, ks)
 		panics = append(panics, w.panics...)
 	}
 
@@ -515,6 +541,30 @@ func TestC15(t *testing.T) {
 		}
 	}
 
+	// static wrapper sites (regenerated table) vs the sites the runs went through
+	if root := os.Getenv("VERIF_ROOT"); root != "" {
+		if src, err := os.ReadFile(root + "/lean/Comdex/Gen/Hooks.lean"); err == nil {
+			txt := string(src)
+			if i := strings.Index(txt, "def units"); i >= 0 {
+				txt = txt[i:]
+				if j := strings.Index(txt, "\n]"); j >= 0 {
+					txt = txt[:j]
+				}
+				var static, missing []string
+				for _, m := range regexp.MustCompile(`"(x/[^"]+:\d+)"⟩`).FindAllStringSubmatch(txt, -1) {
+					static = append(static, m[1])
+					if tr.Stats["site:"+m[1]] == 0 {
+						missing = append(missing, m[1])
+					}
+				}
+				tr.Set("unit_sites_static", static)
+				tr.Set("unit_sites_not_exercised", missing)
+				if len(missing) > 0 {
+					t.Logf("C15: wrapper sites in the table that no scenario reached: %v", missing)
+				}
+			}
+		}
+	}
 	tr.Set("escaped_panics", panics)
 	for _, p := range panics {
 		t.Logf("C15 escaping panic: %s", p)
